@@ -284,6 +284,8 @@ static void run(Tape &t, Ctx &c, bool requireTls)
             history += " tls-failure";
             if (!conn.encrypted)
                 encryptionImpossible = true;
+            if (!conn.encrypted && conn.plain.contains("<starttls"))
+                c.label("tls-failure-in-answer-to-starttls");
             srv.send(conn, QStringLiteral("<failure xmlns='urn:ietf:params:xml:ns:xmpp-tls'/>"));
             break;
         case 6:
@@ -342,6 +344,13 @@ static void run(Tape &t, Ctx &c, bool requireTls)
         case 13: history += " stream-error"; srv.send(conn, t.b() ? QStringLiteral("<stream:error><see-other-host xmlns='urn:ietf:params:xml:ns:xmpp-streams'>127.0.0.1:1</see-other-host></stream:error>") : QStringLiteral("<stream:error><policy-violation xmlns='urn:ietf:params:xml:ns:xmpp-streams'/></stream:error>")); break;
         }
         lb::settle();
+        // "if encryption cannot be negotiated it gives up and disconnects": judged as soon as that is the case, not only
+        // at the end of the script (a later server action could end the connection for another reason)
+        if (requireTls && encryptionImpossible && !conn.encrypted) {
+            lb::settleUntil([&] { return client.state() == QXmppClient::DisconnectedState; }, 1500);
+            c.require(client.state() == QXmppClient::DisconnectedState, "c04 not-disconnected-when-tls-impossible", "encryption could not be negotiated but the client is still " + std::to_string(int(client.state())) + "\n script:" + history);
+            break;
+        }
     }
     lb::settle(20, 600);
 
